@@ -556,6 +556,86 @@ Definition solve_hk_cy_objective (hk_fun : R -> R) (sf_corr p_point l_pore : R) 
 """
 
 
+# ---------------------------------------------------------------- Rege-Yang cylinder: layer count, layer populations, weighted average
+RY_CYL_RETURN = 'return N_over_RT * numpy.sum(layer_populations * layer_potentials) / numpy.sum(layer_populations)'
+RY_CYL_NAMES = ('d_ads', 'd_eff', 'd_mat', 'l_pore', 'layer', 'width')
+
+
+def r_expr(e, fn, allowed):
+    """arithmetic over the reals: + - * /, integer literals, names, constants.pi, math.asin"""
+    if isinstance(e, ast.BinOp) and type(e.op) in (ast.Add, ast.Sub, ast.Mult, ast.Div):
+        return '(%s %s %s)' % (r_expr(e.left, fn, allowed), {ast.Add: '+', ast.Sub: '-', ast.Mult: '*', ast.Div: '/'}[type(e.op)], r_expr(e.right, fn, allowed))
+    if isinstance(e, ast.Constant) and type(e.value) is int and e.value >= 0:
+        return str(e.value)
+    if isinstance(e, ast.Name) and e.id in allowed:
+        return e.id
+    if ast.unparse(e) == 'constants.pi':
+        return 'PI'
+    if isinstance(e, ast.Call) and ast.unparse(e.func) == 'math.asin' and len(e.args) == 1 and not e.keywords:
+        return '(asin %s)' % r_expr(e.args[0], fn, allowed)
+    bail(fn, e, 'expression not understood in the Rege-Yang cylinder layer rule: ' + ast.unparse(e))
+
+
+def ry_cylinder_layers(tree, fn):
+    """psd_horvath_kawazoe_ry, cylinder branch, closure potential(l_pore): the number of concentric layers, the population of layer
+    `layer` (one assignment of `width`, one two-armed `if` assigning `layer_population`) and the population-weighted average."""
+    fd = find_fun(tree, 'psd_horvath_kawazoe_ry', fn)
+    branch = None
+    for n in ast.walk(fd):
+        if (isinstance(n, ast.If) and isinstance(n.test, ast.Compare) and ast.unparse(n.test) == "pore_geometry == 'cylinder'"):
+            if branch is not None:
+                bail(fn, n, 'two cylinder branches')
+            branch = n
+    if branch is None:
+        bail(fn, fd, 'cylinder branch of psd_horvath_kawazoe_ry not found')
+    pots = [s for s in branch.body if isinstance(s, ast.FunctionDef) and s.name == 'potential']
+    if len(pots) != 1 or [a.arg for a in pots[0].args.args] != ['l_pore']:
+        bail(fn, branch, 'closure potential(l_pore) of the cylinder branch')
+    body = strip_doc(pots[0].body)
+    loops = [s for s in body if isinstance(s, ast.For)]
+    counts = [s for s in body if isinstance(s, ast.Assign) and ast.unparse(s.targets[0]) == 'n_layers']
+    if len(loops) != 1 or len(counts) != 1 or ast.unparse(loops[0].target) != 'layer' or ast.unparse(loops[0].iter) != 'range(1, n_layers + 1)' or loops[0].orelse:
+        bail(fn, pots[0], 'layer loop `for layer in range(1, n_layers + 1)` / single assignment of n_layers')
+    cnt = counts[0].value
+    # n_layers = int(ARG) + 1
+    if not (isinstance(cnt, ast.BinOp) and isinstance(cnt.op, ast.Add) and ast.unparse(cnt.right) == '1' and isinstance(cnt.left, ast.Call)
+            and ast.unparse(cnt.left.func) == 'int' and len(cnt.left.args) == 1 and not cnt.left.keywords):
+        bail(fn, counts[0], 'n_layers is not int(...) + 1')
+    count_arg = r_expr(cnt.left.args[0], fn, RY_CYL_NAMES[:4])
+    lb = loops[0].body
+    writes = [n for s in lb for n in ast.walk(s) if isinstance(n, (ast.Assign, ast.AugAssign, ast.AnnAssign))
+              for t in (n.targets if isinstance(n, ast.Assign) else [n.target]) if ast.unparse(t) in ('width', 'layer_population', 'layer', 'l_pore', 'd_ads', 'd_eff')]
+    if len(lb) < 2 or not (isinstance(lb[0], ast.Assign) and ast.unparse(lb[0].targets[0]) == 'width' and len(lb[0].targets) == 1):
+        bail(fn, lb[0], 'first statement of the layer loop is not `width = ...`')
+    iff = lb[1]
+    if not (isinstance(iff, ast.If) and isinstance(iff.test, ast.Compare) and len(iff.test.ops) == 1 and type(iff.test.ops[0]) in (ast.LtE, ast.Lt)
+            and len(iff.body) == 1 and len(iff.orelse) == 1
+            and all(isinstance(x, ast.Assign) and len(x.targets) == 1 and ast.unparse(x.targets[0]) == 'layer_population' for x in (iff.body[0], iff.orelse[0]))):
+        bail(fn, iff, 'second statement of the layer loop is not `if A <= B: layer_population = ... else: layer_population = ...`')
+    if len(writes) != 3:
+        bail(fn, loops[0], 'width / layer_population are assigned elsewhere in the layer loop')
+    if 'layer_populations.append(layer_population)' not in [ast.unparse(x) for x in lb]:
+        bail(fn, loops[0], 'layer_populations.append(layer_population) not found')
+    if not isinstance(body[-1], ast.Return) or ast.unparse(body[-1]) != ast.unparse(ast.parse(RY_CYL_RETURN)):
+        bail(fn, body[-1], 'potential does not return the population-weighted average')
+    after = [ast.unparse(x) for x in body[body.index(loops[0]) + 1:-1]]
+    if after != ['layer_populations = numpy.asarray(layer_populations)', 'layer_potentials = numpy.asarray(layer_potentials)']:
+        bail(fn, loops[0], 'statements between the layer loop and the return: %r' % after)
+    dec = {ast.LtE: 'Rle_dec', ast.Lt: 'Rlt_dec'}[type(iff.test.ops[0])]
+    return ("""
+(* psd_horvath_kawazoe_ry, cylinder, closure potential(l_pore): n_layers = int(ry_cylinder_layer_count_arg) + 1; for layer = 1 .. n_layers
+   the population of the layer; the value returned is the population-weighted average of the layer potentials times N/RT *)
+Definition ry_cylinder_layer_count_arg (d_ads d_mat d_eff l_pore : R) : R := %s.
+Definition ry_cylinder_layer_width (d_ads d_mat d_eff l_pore layer : R) : R := %s.
+Definition ry_cylinder_layer_population (d_ads d_mat d_eff l_pore layer : R) : R :=
+  let width := ry_cylinder_layer_width d_ads d_mat d_eff l_pore layer in
+  if %s %s %s then %s else %s.
+Definition ry_cylinder_average (N_over_RT : R) (layer_populations layer_potentials : list R) : R :=
+  N_over_RT * fold_right Rplus 0 (map (fun p => fst p * snd p) (combine layer_populations layer_potentials)) / fold_right Rplus 0 layer_populations.
+""" % (count_arg, r_expr(lb[0].value, fn, RY_CYL_NAMES[:5]), dec, r_expr(iff.test.left, fn, RY_CYL_NAMES), r_expr(iff.test.comparators[0], fn, RY_CYL_NAMES),
+       r_expr(iff.body[0].value, fn, RY_CYL_NAMES), r_expr(iff.orelse[0].value, fn, RY_CYL_NAMES)))
+
+
 # ---------------------------------------------------------------- psd_microporous: model-name dispatch
 class Unknown(Exception):
     pass
@@ -948,6 +1028,7 @@ def translate(src):
     hk_function(tr, tree, fn, 'psd_horvath_kawazoe_ry', 'ry', T)
     solver_shape(tree, fn)
     dispatch = dispatch_table(tree, fn) + '\n' + adsorbate_sources(tree, fn)
+    ry_layers = ry_cylinder_layers(tree, fn)
 
     o = []
     o.append('(* GENERATED by tools/py2v_hk.py from pygaps/characterisation/psd_micro.py and models_hk.py\n'
@@ -979,7 +1060,7 @@ def translate(src):
     o.extend(tr.out)
     o.append(SOLVER_COQ)
     o.append('End HkGen.\n')
-    o.append('Open Scope R_scope.' + SOLVER_COQ_R)
+    o.append('Open Scope R_scope.' + SOLVER_COQ_R + ry_layers)
     return '\n'.join(o)
 
 
